@@ -105,6 +105,16 @@ PROPS = {
         kinds=[dict(kind="damage", quick=30000, thorough=800000, corr=["r"], oracle_const=[("r", "eee")],
                     nontrivial=lambda req, A, B: len(req.split("\t")[3]) >= 6)],
     ),
+    "C08": dict(
+        level="proof",
+        modules=["Exmex.Props.C08"],
+        theorems=["Exmex.C08.call_tokens", "Exmex.C08.call_tokens_init", "Exmex.C08.lexStep_comma"],
+        rule="expressions in which 25-60% of the operand positions are calls op(a, b) (alphabetic and symbolic binary-only operators), rendered in call form, nested in first and second arguments, inside parentheses and under unary operators, depth up to 6; the implementation's token stream must equal the canonical tokens ((a) op (b)) and the value the documented one; non-trivial = at least one call and two operators; distinct by request hash",
+        kinds=[dict(kind="flat", quick=20000, thorough=500000, args=["calls"],
+                    corr=["toksimpl", "wo", "c", "vars"], oracle=[("toksimpl", "stoks"), ("wo_nf", "spec_nf"), ("c_nf", "spec_nf")],
+                    guards=["render", "toks"],
+                    nontrivial=lambda req, A, B: " C " in (" " + req.split("\t")[4] + " ") and n_binops(req.split("\t")[4]) >= 2)],
+    ),
     "C13": dict(
         level="proof",
         modules=["Exmex.Props.C13"],
